@@ -157,7 +157,10 @@ impl Ctx {
             let safety = sig.contains("utf8")
                 || panic.contains("assertion failed")
                 || panic.contains("unsafe precondition")
-                || panic.contains("is_char_boundary");
+                || panic.contains("is_char_boundary")
+                // arithmetic overflow is checked only in this build; in a release build the wrapped
+                // value would reach the unchecked index / length operations next to it
+                || (panic.contains("attempt to") && panic.contains("overflow"));
             if !safety {
                 self.count("behavioural_violations_left_to_their_own_property", 1);
                 return;
